@@ -49,7 +49,7 @@ let () =
          (match setup_build req ss with
           | None -> print_endline "ERR"
           | Some s ->
-            let fs = List.sort compare (List.map int_of_n s.files) in
+            let fs = List.sort_uniq compare (List.map int_of_n s.files) in
             let step_s t =
               let (nm, fst) = t.s_impfile in
               let final = match store_get t.s_impfile s.store with Some im -> imports_s im | None -> "?" in
